@@ -255,7 +255,7 @@ def evalI : Nat → Node → M Obj
       evalIndexExpression fuel left tok i
     | .comment => pure .null
     | .none => pure (err "unknown node type: <nil>")
-    | .macroLit => stop (.unmodelled "macro literal reached the evaluator")
+    | .macroLit .. => stop (.unmodelled "macro literal reached the evaluator")
 
 /-- `evalStatements` -/
 def evalStatements : Nat → List Node → Obj → M Obj
